@@ -70,6 +70,14 @@ FslLenOverflow(ev) ==
   /\ ev.d.len >= Huge /\ ev.d.t.size > 0 /\ ~ev.d.lo_ovf /\ ~ev.d.nulls.present
   /\ Len(ev.d.bufs) = 0 /\ KidTypesOK(ev.d) /\ Len(ev.d.kids) = 1 /\ WellFormed(ev.d.kids[1])
 
+(* RunEndBuffer::new performs its range checks only when logical_length # 0,   *)
+(* so a zero-length buffer whose logical offset lies beyond the last run end  *)
+(* is accepted, although RunEndBuffer::new_unchecked documents "the last      *)
+(* value of run_ends must be >= logical_offset + logical_len", validate_full  *)
+(* rejects the same array and every other checked buffer constructor          *)
+(* (ScalarBuffer::new, BooleanBuffer::new) rejects an offset beyond the       *)
+(* buffer for length 0 too.  Identified as: that entry point, length 0, the   *)
+(* candidate well-formed except that the run ends do not reach the offset.    *)
 KF(ev) ==
   IF ~ev.accepted THEN ""
   ELSE IF ev.cls = "data" /\ OnlyBreaks(ev, "union-ids")     THEN "C09-union-ids"
@@ -78,6 +86,7 @@ KF(ev) ==
   ELSE IF ev.cls = "data" /\ OnlyBreaks(ev, "struct-offset") THEN "C09-struct-offset"
   ELSE IF ev.e = "typed" /\ ev.fam = "union" /\ OnlyBreaks(ev, "union-kid-types") THEN "C09-union-kid-types"
   ELSE IF FslLenOverflow(ev) THEN "C09-fsl-len-overflow"
+  ELSE IF ev.e = "run_end_buffer" /\ ev.d.len = 0 /\ OnlyBreaks(ev, "ree-cover") THEN "C09-run-end-buffer-empty"
   ELSE ""
 
 (* report only: rejected although well-formed (constructors may be stricter); *)
